@@ -6,7 +6,7 @@ ENG = os.path.join(VERIF, "engines", "simwasi")
 SIMCORE = os.path.join(VERIF, "simcore")
 WASI_DEFS = ["-DHAS_UNISTD=1", "-DHAS_SYSUIO=1", "-DHAS_SYSTIME=1", "-DHAS_SYSRESOURCE=1", "-DHAS_STRNDUP=1", "-DHAS_FCNTL=1", "-DHAS_LSTAT=1",
              "-DHAS_GETENTROPY=1", "-DHAS_TIMESPEC=1", "-DWASM_THREADS_PTHREADS"]
-WRAP_WASI = ("exit open close readv writev lseek opendir readdir closedir mkdir rmdir unlink rename symlink readlink stat lstat fstat "
+WRAP_WASI = ("exit open close read write readv writev lseek opendir readdir closedir mkdir rmdir unlink rename symlink readlink stat lstat fstat "
              "getentropy fsync fdatasync").split()
 PROPS = {"C12": (20000, 600000), "C13": (12000, 400000), "C14": (12000, 400000), "C15": (10000, 300000)}
 
@@ -28,6 +28,8 @@ def build(variant):
     feat = "full"
     if variant.endswith("+bundled"):
         variant, feat = variant[:-8], "bundled"
+    if variant.endswith("+nouio"):
+        variant, feat = variant[:-6], "nouio"
     be = variant.endswith("+be")
     if be:
         variant, feat = variant[:-3], "be"
@@ -50,7 +52,7 @@ def build(variant):
     bedefs = ["-DWASM_ENDIAN=WASM_BIG_ENDIAN"] if be else []
     sut = ["clang", "-O1", "-g", "-w"] + SAN_MEM + cov + ["-include", os.path.join(VERIF, "engines", "simrt", "sim_atomics.h")] + WASI_DEFS + bedefs + inc
     cmds = [sut + ["-c", os.path.join(d, variant + ".c"), "-o", os.path.join(d, "mod.o")],
-            [x for x in sut if feat == "full" or x not in ("-DHAS_STRNDUP=1", "-DHAS_GETENTROPY=1")] + ["-c", os.path.join(REPO, "wasi", "wasi.c"), "-o", os.path.join(d, "wasi.o")],
+            [x for x in sut if not ((feat == "bundled" and x in ("-DHAS_STRNDUP=1", "-DHAS_GETENTROPY=1")) or (feat == "nouio" and x == "-DHAS_SYSUIO=1"))] + ["-c", os.path.join(REPO, "wasi", "wasi.c"), "-o", os.path.join(d, "wasi.o")],
             ["clang", "-O1", "-g", "-Wno-everything", "-Werror=implicit-function-declaration"] + SAN_MEM + WASI_DEFS + bedefs + inc +
             ["-DMOD=" + variant, '-DMOD_HEADER="%s.h"' % variant, '-DMOD_DISPATCH="%s_dispatch.inc"' % variant] + (["-DNOTHREAD"] if variant.endswith("nt") else []) +
             ["-c", os.path.join(ENG, "glue.c"), "-o", os.path.join(d, "glue.o")]]
@@ -116,7 +118,7 @@ def check(prop, tier, seed, replay=None):
     total = nq if tier == "quick" else nt
     if os.environ.get("VERIF_RUNS"):
         total = int(os.environ["VERIF_RUNS"])
-    variants = ["wasihost", "wasihostnt", "wasihost+bundled"] if prop == "C15" else ["wasihost", "wasihost+bundled"]
+    variants = ["wasihost", "wasihostnt", "wasihost+bundled"] if prop == "C15" else (["wasihost", "wasihost+bundled", "wasihost+nouio"] if prop == "C12" else ["wasihost", "wasihost+bundled"])
     exes = {v: build(v) for v in variants}
     build_s = time.time() - t0
     rdir = os.path.join(SCRATCH, "verif-e3d-%s-%07d" % (prop, os.getpid()))
@@ -126,9 +128,9 @@ def check(prop, tier, seed, replay=None):
         with open(path, errors="replace") as f:
             txt = f.read()
         nt_ = " nothread=1" in txt
-        want = "wasihostnt" if nt_ else ("wasihost+bundled" if "# build bundled" in txt else ("wasihost+be" if "# build be" in txt else "wasihost"))
+        want = "wasihostnt" if nt_ else ("wasihost+bundled" if "# build bundled" in txt else ("wasihost+be" if "# build be" in txt else ("wasihost+nouio" if "# build nouio" in txt else "wasihost")))
         exe = exes.get(want) or build(want)
-        return [exe, "--replay", path, "--scratch", rdir]
+        return [exe, "--replay", path, "--scratch", rdir] + (["--build-tag", want.split("+")[1]] if "+" in want else [])
 
     if replay:
         r = subprocess.run(replay_cmd(replay), stdout=subprocess.PIPE, stderr=subprocess.PIPE)
@@ -140,9 +142,9 @@ def check(prop, tier, seed, replay=None):
     allres, internal = [], []
     run_wall = 0.0
     for v in variants:
-        share = {"wasihost": total * 4 // 6 if prop == "C15" else total * 3 // 4, "wasihostnt": total // 6, "wasihost+bundled": total // 6 if prop == "C15" else total // 4}[v]
+        share = {"wasihost": total * 4 // 6 if prop == "C15" else (total // 2 if prop == "C12" else total * 3 // 4), "wasihostnt": total // 6, "wasihost+bundled": total // 6 if prop == "C15" else total // 4, "wasihost+nouio": total // 4}[v]
         exe = exes[v]
-        pool = WorkerPool(lambda s, st, c, exe=exe, v=v: [exe, "--prop", prop, "--seed", str(seed), "--start", str(s), "--stride", str(st), "--count", str(c), "--replay-dir", rdir, "--scratch", rdir] + (["--build-tag", "bundled"] if v.endswith("+bundled") else []),
+        pool = WorkerPool(lambda s, st, c, exe=exe, v=v: [exe, "--prop", prop, "--seed", str(seed), "--start", str(s), "--stride", str(st), "--count", str(c), "--replay-dir", rdir, "--scratch", rdir] + (["--build-tag", v.split("+")[1]] if "+" in v else []),
                           share, wall_cap=(900 if tier == "quick" else 7200))
         run_wall += pool.run()
         for r in pool.results:
@@ -180,7 +182,7 @@ def check(prop, tier, seed, replay=None):
     okres = [r for r in allres if r.get("status") == "ok"]
     sample = okres[:: max(1, len(okres) // 16)][:16]
     for a in sample:
-        o = subprocess.run([exes[a["variant"]], "--prop", prop, "--seed", str(seed), "--start", a["idx"], "--count", "1", "--no-replay-files", "--scratch", rdir],
+        o = subprocess.run([exes[a["variant"]], "--prop", prop, "--seed", str(seed), "--start", a["idx"], "--count", "1", "--no-replay-files", "--scratch", rdir] + (["--build-tag", a["variant"].split("+")[1]] if "+" in a["variant"] else []),
                            stdout=subprocess.PIPE, stderr=subprocess.DEVNULL).stdout.decode()
         for line in o.splitlines():
             d = parse_result_line(line)
